@@ -42,6 +42,7 @@ def run(ctx):
     ctx.rule("C10.4", "follow_cnames: loops return None; a result only if a record matched or a link was followed")
     ctx.rule("C10.5", "aliases are not followed for CNAME / ANY questions (zone: !CNAME.matches(qtype); cache: qtype != CNAME and direct miss)")
     ctx.rule("C10.6", "where the nested resolution itself stopped at an unresolved alias (LocalResolutionResult::CNAME), the alias target reported onwards is the nested result's cname_question (the end of the chain returned), never the first link again")
+    ctx.rule("C10.7", "record fidelity of the alias records themselves: owner = the question name when a zone (or its wildcard) supplies the alias (C02.1); from an upstream answer exactly the walked links are admitted (C06.4, C06.6)")
     ctx.decline("all alias graphs over all sources; 'followed only by records of the asked type at the final target' is a value property")
 
     sites = 0
@@ -194,6 +195,12 @@ def run(ctx):
     # ... and what those guards consult: the stack of questions in flight, its limit and its duplicate test
     from . import C08
     C08.context_rules(ctx, "C10.3", prog)
+    # the alias record a zone hands out is owned by the question name (C02.1), and from an upstream answer only the links
+    # actually walked are kept, once each (C06.4 / C06.6) - decided here as well
+    from ..core import RuleAlias
+    from . import C02, C06
+    C02.run(RuleAlias(ctx, {"C02.1": "C10.7"}))
+    C06.run(RuleAlias(ctx, {"C06.4": "C10.7", "C06.6": "C10.7"}))
 
     # ---------------------------------------------------------------- C10.4
     fc = prog.fn(REC + "follow_cnames")
